@@ -528,6 +528,24 @@ func Generate(r *rand.Rand, profile string, concurrent bool, av Avoid) *Plan {
 		ops = append(ops, frag...)
 		p.Ops = append(ops, p.Ops[at:]...)
 	}
+	// Directed fragment: a configuration without a stream watermark is only
+	// distinguishable from its default (100) by about a hundred calls in flight
+	// on one channel: a pool of one, filled to just below / at / above 100, then a
+	// few more picks and the state reports of whatever connection growth created.
+	if profile == "config" && !concurrent && p.Cfg.WM == 0 && p.Cfg.Min <= 1 && !p.Cfg.RR && r.IntN(6) == 0 && len(p.Ops) > 4 {
+		frag := []Op{{K: OpConn, A: 0, B: ConnProgress}, {K: OpConn, A: 0, B: ConnProgress}}
+		n := 97 + r.IntN(5)
+		for c := 0; c < n; c++ {
+			frag = append(frag, Op{K: OpPick, B: MPlain})
+		}
+		for c := 0; c < 3; c++ {
+			frag = append(frag, Op{K: OpPick, B: MPlain}, Op{K: OpConn, A: -1, B: ConnProgress}, Op{K: OpConn, A: -1, B: ConnProgress})
+		}
+		at := 1 + r.IntN(3)
+		ops := append([]Op{}, p.Ops[:at]...)
+		ops = append(ops, frag...)
+		p.Ops = append(ops, p.Ops[at:]...)
+	}
 	// Directed concurrent fragment: two BINDs for the same key in flight on
 	// different channels whose completion callbacks overlap, then keyed calls.
 	if concurrent && (profile == "affinity" || profile == "fallback" || profile == "chaos") && r.IntN(3) == 0 && len(p.Ops) > 4 {
